@@ -111,6 +111,7 @@ type c11Stmt struct {
 	Limit    int
 	Renamed  map[string]string // identifier renaming applied to the base statement (nil: neutral names)
 	WithFirst bool             // WITH (...) written before HAVING (the repository's own tests write both orders)
+	WinFirst  bool             // GROUP BY <window>, <column>: the list ends in a plain column
 }
 
 func (s c11Stmt) parts() []string {
@@ -133,7 +134,11 @@ func (s c11Stmt) parts() []string {
 	if s.Window != "" {
 		w := map[string]string{"tumbling": "TumblingWindow('2s')", "sliding": "SlidingWindow('4s', '2s')", "counting": "CountingWindow(3)", "session": "SessionWindow('5s')",
 			"global": "GLOBAL WINDOW TRIGGER WHEN count(*) >= 2"}[s.Window]
-		p = append(p, "GROUP", "BY", s.Group+",", w)
+		if s.WinFirst {
+			p = append(p, "GROUP", "BY", w+",", s.Group)
+		} else {
+			p = append(p, "GROUP", "BY", s.Group+",", w)
+		}
 	}
 	if s.Having != "" && !s.WithFirst {
 		p = append(p, "HAVING", s.Having)
@@ -447,6 +452,14 @@ func c11Stmts(tier string) []c11Stmt {
 					}
 				}
 			}
+		}
+	}
+	// the GROUP BY list ends in a plain column, so every later clause keyword directly follows a pending column
+	for i, n := 0, len(out); i < n; i++ {
+		if out[i].Window != "" && out[i].Window != "global" && out[i].Group != "" && (i%2 == 0 || (out[i].Having == "" && out[i].With == 0)) {
+			v := out[i]
+			v.WinFirst = true
+			out = append(out, v)
 		}
 	}
 	// clause order: WITH (...) before HAVING
